@@ -52,6 +52,7 @@ func (x *fnExec) doCall(st *State, site ssa.Instruction, call *ssa.CallCommon, m
 		bname := x.calleeName(call)
 		for _, ac := range x.c.AtCall {
 			if ac.Target == bname && mode != "go" {
+				x.clauseHit[ac] = true
 				actx := x.ctx(st)
 				for ai, a := range call.Args {
 					actx.vars[fmt.Sprintf("$arg%d", ai)] = x.val(st, a)
@@ -92,6 +93,7 @@ func (x *fnExec) doCall(st *State, site ssa.Instruction, call *ssa.CallCommon, m
 	if mode == "go" {
 		for _, ac := range x.c.AtGo {
 			if ac.Target == name {
+				x.clauseHit[ac] = true
 				actx := x.ctx(st)
 				for ai, a := range args {
 					actx.vars[fmt.Sprintf("$arg%d", ai)] = a
@@ -102,13 +104,19 @@ func (x *fnExec) doCall(st *State, site ssa.Instruction, call *ssa.CallCommon, m
 		}
 	}
 	for _, ac := range x.c.AtCall {
-		if ac.Target == name && mode != "go" {
+		// strings.ReplaceAll(s, old, new) is strings.Replace(s, old, new, -1): clauses written for the one also bind the other
+		alias := ac.Target == "strings.Replace" && name == "strings.ReplaceAll" && len(args) == 3
+		if (ac.Target == name || alias) && mode != "go" {
+			x.clauseHit[ac] = true
 			actx := x.ctx(st)
 			for ai, a := range args {
 				actx.vars[fmt.Sprintf("$arg%d", ai)] = a
 			}
+			if alias {
+				actx.vars["$arg3"] = mkTerm("(- 1)", sInt, types.Typ[types.Int])
+			}
 			g := x.evalClause(st, actx, ac)
-			x.emit(st, fmt.Sprintf("atcall.%s.%s#%d", name, ac.Label, ord), "atcall", ac.Label, ac.Props, g, "before "+name+": "+ac.Src)
+			x.emit(st, fmt.Sprintf("atcall.%s.%s#%d", ac.Target, ac.Label, ord), "atcall", ac.Label, ac.Props, g, "before "+name+": "+ac.Src)
 		}
 	}
 	var callee *ssa.Function
